@@ -569,10 +569,21 @@ func putAliasToIndexInMem(aliasName string, indexName string, orgid int64) {
 func FlushAliasMapToFile() error {
 	log.Warnf("FlushAliasMapToFile: Flushing alias map to file on exit")
 	for orgid := range aliasToIndexNames {
+		// alias files are kept per index: indexName.json holds the aliases of that index
+		indexToAliases := make(map[string]map[string]bool)
 		for alias, indexNames := range aliasToIndexNames[orgid] {
-			err := writeAliasFile(&alias, indexNames, orgid)
+			for indexName := range indexNames {
+				if _, ok := indexToAliases[indexName]; !ok {
+					indexToAliases[indexName] = make(map[string]bool)
+				}
+				indexToAliases[indexName][alias] = true
+			}
+		}
+		for indexName, aliases := range indexToAliases {
+			indexName := indexName
+			err := writeAliasFile(&indexName, aliases, orgid)
 			if err != nil {
-				log.Errorf("FlushAliasMapToFile: Failed to save alias map! alias=%v, Error= %+v", alias, err)
+				log.Errorf("FlushAliasMapToFile: Failed to save alias map! indexName=%v, Error= %+v", indexName, err)
 			}
 		}
 	}
